@@ -254,7 +254,7 @@ Proof.
   destruct (find (fun d => ident_eqb (tname d) tn) (ptypes p)) as [d'|] eqn:FD; [|discriminate]. inversion LT; subst d'. clear LT.
   destruct (XC.find_clause_pos cls (txtors d) tag cl 0%N CO FC) as (k & xk & Hk & Hxk & XP & FX & SMk).
   pose proof (XC.cls_sig_length _ _ CO) as LCL.
-  destruct (ENTRY k cl Hk) as (pcc & lcl & cl1 & lcb & cb & lcb' & LD & BDY & PLb & LCb & ANb & FRb & LAND).
+  destruct (ENTRY k cl Hk) as (pcc & lcl & cl1 & lcb & cb & lcb' & LD & BDY & PLb & LCb & ANb & FRb & ABk & LAND).
   assert (T2' : rtpos Snd (List.length c0) = Ok t2) by (rewrite <- L0; exact T2).
   assert (T1' : rtpos Fst (List.length c0) = Ok t1) by (rewrite <- L0; exact T1).
   (* the arguments, relabelled *)
@@ -283,28 +283,41 @@ Proof.
       destruct CODE as (k' & XP' & ->). assert (k' = N.of_nat k) by (rewrite XP in XP'; inversion XP'; lia). subst k'.
       set (off := jump_length (N.of_nat k)) in *.
       assert (OFF : 0 <= off) by (unfold off, jump_length; lia).
-      cbn [r_add_and_jump] in CA.
-      pose proof (ENC _ _ (proj1 (CA O _ eq_refl))) as W. cbn [instr_wf] in W. apply andb_true_iff in W as [_ FI].
-      change (simm12 off) with (fits12 off) in FI.
-      assert (FI' : off <= 2047) by (unfold fits12 in FI; lia).
       assert (WR : wrap (a + off) = a + off) by (apply wrap_small; unfold min_int, max_int, two63; lia).
       assert (EV : wrap (a + off) mod 2 = 0).
       { rewrite WR. unfold off, jump_length. replace (a + 4 * Z.of_N (N.of_nat k)) with (a + (2 * Z.of_N (N.of_nat k)) * 2) by lia.
         rewrite Z.mod_add by lia. exact AEV. }
       set (s1 := rset s TEMP (Some (wrap (a + off)))).
       exists s1. split; [|split].
-      + intros NZ o Fin. destruct (LAND NZ) as (i & IX & ARR).
-        assert (IX' : PM.find (key (wrap (a + off))) (index_at im) = Some i) by (rewrite WR; exact IX).
-        apply ARR in Fin. refine (star_rfin im stop STOPC ENDC _ _ _ _ o _ Fin).
+      2:{ intros a0. unfold s1. apply hword_rset. }
+      2:{ intros r0 Hr. unfold s1. apply rget_rset_other. congruence. }
+      intros NZ o Fin. destruct (LAND NZ) as (i & IX & ARR).
+      assert (IX' : PM.find (key (wrap (a + off))) (index_at im) = Some i) by (rewrite WR; exact IX).
+      apply ARR in Fin. refine (star_rfin im stop STOPC ENDC _ _ _ _ o _ Fin).
+      unfold r_add_and_jump in CA. destruct (addi_fits off) eqn:FI; change (addi_fits off) with (fits12 off) in FI; cbn [app] in CA.
+      + (* the offset is an ADDI immediate *)
         eapply star_trans; [eapply (star_next im _ _ _ s s1); [exact CA|]|].
         * intros ad. destruct (rv_add_and_jump_sel im ad t2 off a i s L2 FI EV IX') as (c1 & c2 & E & ST1 & _).
-          cbn [b_add_and_jump rv_backend r_add_and_jump] in E. inversion E; subst c1 c2. exact ST1.
+          cbn [b_add_and_jump rv_backend] in E. unfold r_add_and_jump in E. change (addi_fits off) with (fits12 off) in E. rewrite FI in E.
+          inversion E; subst c1 c2. exact ST1.
         * apply at_code_cons in CA as [_ CA]. eapply (star_jump im _ _ _ s1 s1); [exact CA|]. intros ad.
           destruct (rv_add_and_jump_sel im (ad - 4) t2 off a i s L2 FI EV IX') as (c1 & c2 & E & _ & ST2).
-          cbn [b_add_and_jump rv_backend r_add_and_jump] in E. inversion E; subst c1 c2.
+          cbn [b_add_and_jump rv_backend] in E. unfold r_add_and_jump in E. change (addi_fits off) with (fits12 off) in E. rewrite FI in E.
+          inversion E; subst c1 c2.
           cbn [isize] in ST2. replace (ad - 4 + 4) with ad in ST2 by lia. exact ST2.
-      + intros a0. unfold s1. apply hword_rset.
-      + intros r0 Hr. unfold s1. apply rget_rset_other. congruence. }
+      + (* a larger offset: LI X1, off; ADD X1, t2, X1 *)
+        assert (NT2 : t2 <> TEMP) by (apply rtpos_regs in T2'; tauto).
+        assert (SEL : forall p1 p2 p3, step im p1 (LI TEMP off) s = Next (rset s TEMP (Some off)) /\
+                  step im p2 (ADD TEMP t2 TEMP) (rset s TEMP (Some off)) = Next s1 /\
+                  step im p3 (JALR ZERO TEMP 0) s1 = Jump s1 i).
+        { intros p1 p2 p3. destruct (rv_add_and_jump_big_sel im p1 p2 p3 t2 off a i s L2 NT2 FI EV IX') as (c1 & c2 & c3 & E & S1 & S2 & S3).
+          cbn [b_add_and_jump rv_backend] in E. unfold r_add_and_jump in E. change (addi_fits off) with (fits12 off) in E. rewrite FI in E.
+          inversion E; subst c1 c2 c3. auto. }
+        eapply star_trans; [eapply (star_next im _ _ _ s (rset s TEMP (Some off))); [exact CA|intros ad; apply (SEL ad 0 0)]|].
+        apply at_code_cons in CA as [_ CA].
+        eapply star_trans; [eapply (star_next im _ _ _ (rset s TEMP (Some off)) s1); [exact CA|intros ad; apply (SEL 0 ad 0)]|].
+        apply at_code_cons in CA as [_ CA].
+        eapply (star_jump im _ _ _ s1 s1); [exact CA|]. intros ad. apply (SEL 0 0 ad). }
   destruct JUMP as (sj & XJ & HEj & RGj).
   pose proof (hrel_temp _ _ _ s sj R1 HEj RGj) as Rj.
   assert (LQ : rget sj (pos_reg Fst (List.length (cl_ctx cl))) = Some q).
